@@ -225,6 +225,9 @@ def new_target(rng, t, kind, src):
     p = src @ L.T + rng.uniform(-5, 5, d) + rng.normal(scale=[0, 0.01, 0.5, 1.0][rng.integers(0, 4)], size=src.shape)
     if kind == "ThinPlateSplines":
         p = src + rng.normal(scale=0.6, size=src.shape) + rng.uniform(-2, 2, d)
+    elif kind in ("AlignmentUniformScale", "AlignmentSimilarity", "AlignmentAffine", "AlignmentTranslation") and rng.random() < 0.12:
+        # the target in a very different unit from the source (kilometres against micrometres): a legal, tiny or huge, scale
+        p = p * 10.0 ** (rng.uniform(9, 13) * rng.choice([-1.0, 1.0]))
     cls = [ms.PointCloud, ms.PointCloud, ms.PointUndirectedGraph][rng.integers(0, 3)]
     if cls is ms.PointUndirectedGraph:
         return ms.PointUndirectedGraph(p, gen.adjacency(len(p), gen.random_undirected_edges(rng, len(p)), True))
@@ -268,6 +271,14 @@ def w_history(ctx, rng, i):
             # integer pixel positions as the first target (later targets are ordinary floats)
             tg = ms.PointCloud(np.round(tg.points * 2).astype(np.int64))
             opts_int = True
+        elif rng.random() < 0.35:
+            # the usual template pattern: built as the identity warp (source onto itself / onto an affine image of itself),
+            # retargeted to the real, bent targets afterwards
+            if rng.random() < 0.5:
+                tg = ms.PointCloud(s.points.copy())
+            else:
+                tg = ms.PointCloud(s.points @ (np.eye(2) + rng.uniform(-0.2, 0.2, (2, 2))).T + rng.uniform(-3, 3, 2))
+            opts_int = "affine_first_target"
         k = int(rng.integers(0, 3))
         kern = [None, R2LogR2RBF(s.points.copy()), R2LogRRBF(s.points.copy())][k]
         msv = [1e-4, 1e-6, 1e-5][rng.integers(0, 3)]
